@@ -304,6 +304,17 @@ func (l *Local) Flush() {
 
 const maxStoredViolations = 12
 
+// famListed reports whether name is one of the "|"-separated families of a
+// known-findings entry (one defect may be reachable through several families).
+func famListed(list, name string) bool {
+	for _, f := range strings.Split(list, "|") {
+		if f == name {
+			return true
+		}
+	}
+	return false
+}
+
 // Fail reports a violating case. sig is the specific signature matched against
 // known findings; cas is the replayable case. The case is re-executed through
 // the family's replay function (if any) before it is believed.
@@ -314,7 +325,7 @@ func (c *Check) Fail(fam *Family, sig string, cas any, msg string) {
 	}
 	c.mu.Lock()
 	for _, k := range c.known {
-		if (k.Family == "" || k.Family == strings.TrimPrefix(fam.Name, SweepPrefix)) && k.re.MatchString(sig) {
+		if (k.Family == "" || famListed(k.Family, strings.TrimPrefix(fam.Name, SweepPrefix))) && k.re.MatchString(sig) {
 			c.nKnown[k.What]++
 			c.mu.Unlock()
 			return
